@@ -47,3 +47,16 @@ def call(key, case, fn, *a, **kw):
     except Exception as e:
         raise PropertyViolation("%s/raises-%s" % (key, type(e).__name__),
                                 "%s raised %s: %s" % (getattr(fn, "__name__", fn), type(e).__name__, str(e)[:300]), case)
+
+
+def conv_fn(model, name, conv):
+    """The evaluator `name` in the calling convention `conv`: 'state-first' f(x, t, ...) or 'time-first' f_T(t, x, ...)
+    (the wrappers handed to scipy integrators)."""
+    if conv == "time-first":
+        inner = getattr(model, name + "_T")
+
+        def f(x, t, *extra):
+            return inner(t, x, *extra)
+        f.__name__ = name + "_T"
+        return f
+    return getattr(model, name)
